@@ -285,4 +285,141 @@ Proof.
     + intros E0. destruct cols as [|c0 cols']; [rewrite lenN_nil in E0; congruence|exact Hrows].
 Qed.
 
+
+(* PREPARED *)
+Lemma pk_seq_insert_len x l : lenN (pk_seq_insert x l) = lenN l + 1.
+Proof.
+  induction l as [|y l IH]; [reflexivity|]. cbn [pk_seq_insert]. destruct (pk_seq_leb x y).
+  - rewrite !lenN_cons. reflexivity.
+  - rewrite !lenN_cons, IH. reflexivity.
+Qed.
+Lemma pk_seq_insert_forall (P : N * N -> Prop) x l : P x -> Forall P l -> Forall P (pk_seq_insert x l).
+Proof.
+  intros Hx. induction 1 as [|y l Hy Hl IH]; [repeat constructor; exact Hx|]. cbn [pk_seq_insert].
+  destruct (pk_seq_leb x y); repeat constructor; auto.
+Qed.
+Lemma pk_wire_len pk : lenN (pk_wire pk) = lenN pk.
+Proof.
+  unfold pk_wire. unfold lenN at 1. rewrite map_length. fold (lenN (fold_right pk_seq_insert [] pk)).
+  induction pk as [|x pk IH]; [reflexivity|]. cbn [fold_right]. rewrite pk_seq_insert_len, IH, lenN_cons. reflexivity.
+Qed.
+Lemma pk_wire_forall pk : Forall (fun x => fst x < 65536) pk -> Forall (fun v => v < 65536) (pk_wire pk).
+Proof.
+  intros F. unfold pk_wire. apply Forall_map.
+  induction F as [|x pk Hx _ IH]; [constructor|]. cbn [fold_right]. apply pk_seq_insert_forall; assumption.
+Qed.
+
+Lemma enc_short_nonempty v : enc_short v <> [].
+Proof. intros X. apply (f_equal (@Datatypes.length N)) in X. unfold enc_short in X. rewrite be_enc_length in X. cbn in X. lia. Qed.
+
+Lemma run_table_opt_enc (g : bool) cols r' :
+  (g = true -> wf_tablespec (first_table cols)) ->
+  run (if g then pmap Some deser_table_spec else ret None)
+      ((if g then enc_table_spec (first_table cols) else []) ++ r') =
+  Ok (if g then Some (first_table cols) else None, r').
+Proof.
+  intros H. destruct g; [|reflexivity]. rewrite run_pmap, run_deser_table_spec_enc by (apply H; reflexivity).
+  reflexivity.
+Qed.
+
+Lemma wf_cols_first g n cols : wf_cols g n cols -> g = true -> wf_tablespec (first_table cols).
+Proof.
+  intros (_ & W & G) ->. destruct (G eq_refl) as [Hne _]. destruct cols as [|c0 cols']; [congruence|].
+  inversion W as [|? ? Wc0 _]; subst. apply Wc0.
+Qed.
+
+Lemma run_cols_enc (g : bool) n cols r' :
+  wf_cols g n cols ->
+  run (deser_col_specs custom (if g then Some (first_table cols) else None) n)
+      (flat_map (enc_col_spec g) cols ++ r') = Ok (cols, r').
+Proof.
+  intros W. pose proof (wf_cols_first _ _ _ W) as Wt. destruct W as (<- & W & G).
+  apply run_deser_col_specs_enc; [exact W|]. intros ->. split; [apply Wt; reflexivity|apply G; reflexivity].
+Qed.
+
+Lemma run_deser_prepared_enc ft p r :
+  wf_prepared ft p -> run (deser_prepared custom ft) (enc_prepared p ++ r) = Ok (p, r).
+Proof.
+  destruct p as [id rmid flags cc pk cols g nomd rcc rcols].
+  unfold wf_prepared. cbn [p_id p_result_metadata_id p_flags p_col_count p_pk p_cols pr_global pr_no_metadata
+                           pr_col_count pr_cols].
+  intros (Wid & Wrmid & Wfl & Hcc & Hrcc & Hpk & Hpkl & Hpkeq & Wcols & Wrcols).
+  unfold deser_prepared, enc_prepared.
+  cbn [p_id p_result_metadata_id p_flags p_col_count p_pk p_cols pr_global pr_no_metadata pr_col_count pr_cols].
+  rewrite <- !app_assoc. rt.
+  assert (Ermid : forall r', run (if ft_metadata_id ft then pmap Some read_short_bytes else ret None)
+                    (match rmid with Some x => enc_short_bytes x | None => [] end ++ r') = Ok (rmid, r')).
+  { intros r'. destruct rmid as [x|].
+    - destruct Wrmid as [-> Wx]. rewrite run_pmap, run_read_short_bytes_enc by exact Wx. reflexivity.
+    - rewrite Wrmid. reflexivity. }
+  rewrite Ermid. rt. unfold deser_prepared_metadata. rt.
+  rewrite run_tick_alloc_capped. rt.
+  rewrite <- (pk_wire_len pk).
+  rewrite (run_repeatN_enc read_short enc_short (pk_wire pk)).
+  2:{ eapply Forall_impl; [|apply pk_wire_forall; exact Hpk]. intros v Hv r'. apply run_read_short_enc. exact Hv. }
+  2:{ apply Forall_forall. intros v _. apply enc_short_nonempty. }
+  rt. rewrite run_table_opt_enc by (apply (wf_cols_first _ _ _ Wcols)). rt.
+  rewrite run_cols_enc by exact Wcols. rt. rewrite <- Hpkeq.
+  (* result metadata *)
+  unfold deser_result_metadata.
+  pose proof (flag_bits g false nomd false) as FB. cbv zeta in FB. destruct FB as (Wf & F1 & F2 & F4 & F8).
+  replace (b2z g 1 + b2z nomd 4)%Z with (b2z g 1 + b2z false 2 + b2z nomd 4 + b2z false 8)%Z by (cbn [b2z]; lia).
+  rt. rewrite F1, F2, F4, F8, andb_false_r. cbn [andb]. rt.
+  destruct nomd.
+  - subst rcols. cbn [app]. rt. reflexivity.
+  - rewrite <- !app_assoc. rt. rewrite run_table_opt_enc by (apply (wf_cols_first _ _ _ Wrcols)). rt.
+    rewrite run_cols_enc by exact Wrcols. rt. reflexivity.
+Qed.
+
+Lemma run_deser_result_enc ft x r :
+  wf_result ft x -> run (deser_result custom ft) (enc_result x ++ r) = Ok (x, r).
+Proof.
+  intros W. unfold deser_result. destruct x as [|rr|ks|p|sc]; cbn [wf_result enc_result] in *;
+    rewrite <- ?app_assoc; rt; eval_closed; cbv iota; rt.
+  - reflexivity.
+  - rewrite run_deser_rows_full_enc by exact W. reflexivity.
+  - reflexivity.
+  - rewrite run_deser_prepared_enc by exact W. reflexivity.
+  - rewrite run_deser_schema_change_enc by exact W. reflexivity.
+Qed.
+
+Lemma run_deser_response_enc ft v2 resp r :
+  wf_response ft v2 resp ->
+  run (deser_response custom ft v2 (opcode_of resp)) (enc_response ft resp ++ r) = Ok (resp, r).
+Proof.
+  intros W. unfold deser_response.
+  destruct resp as [e reason| |n|o|x|e|m|m]; cbn [wf_response enc_response opcode_of] in *; eval_closed; cbv iota.
+  - destruct W as [We Wr]. rt. rewrite run_deser_error_enc by assumption. reflexivity.
+  - reflexivity.
+  - rt. reflexivity.
+  - destruct W as (Wl & Wn & Wf). rt. rewrite run_read_string_multimap_enc by assumption. reflexivity.
+  - rt. rewrite run_deser_result_enc by exact W. reflexivity.
+  - rt. rewrite run_deser_event_enc by exact W. reflexivity.
+  - rt. rewrite run_read_bytes_opt_enc by (destruct m; exact W). reflexivity.
+  - rt. rewrite run_read_bytes_opt_enc by (destruct m; exact W). reflexivity.
+Qed.
+
+Lemma run_deser_extensions_enc flags x r :
+  wf_extensions flags x -> run (deser_extensions flags) (enc_extensions x flags ++ r) = Ok (x, r).
+Proof.
+  destruct x as [tr w pl]. unfold wf_extensions, deser_extensions, enc_extensions. cbn [x_trace x_warnings x_payload].
+  intros (Wt & Ww & Wp). rewrite <- !app_assoc. rt.
+  assert (Et : forall r', run (if bit flags 2 then pmap Some read_uuid else ret None)
+                  ((if bit flags 2 then match tr with Some t => t | None => [] end else []) ++ r') = Ok (tr, r')).
+  { intros r'. destruct (bit flags 2).
+    - destruct Wt as (t & -> & Wb & Wl). rewrite run_pmap. unfold read_uuid. rewrite <- Wl, run_read_raw_app. reflexivity.
+    - subst tr. reflexivity. }
+  rewrite Et. rt.
+  assert (Ew : forall r', run (if bit flags 8 then read_string_list else ret [])
+                  ((if bit flags 8 then enc_string_list w else []) ++ r') = Ok (w, r')).
+  { intros r'. destruct (bit flags 8); [apply run_read_string_list_enc; exact Ww|subst w; reflexivity]. }
+  rewrite Ew. rt.
+  assert (Ep : forall r', run (if bit flags 4 then pmap Some read_bytes_map else ret None)
+                  ((if bit flags 4 then match pl with Some p => enc_bytes_map p | None => [] end else []) ++ r') = Ok (pl, r')).
+  { intros r'. destruct (bit flags 4).
+    - destruct Wp as (p0 & -> & Wl & Wn & Wf). rewrite run_pmap, run_read_bytes_map_enc by assumption. reflexivity.
+    - subst pl. reflexivity. }
+  rewrite Ep. rt. reflexivity.
+Qed.
+
 End WithCustom.
